@@ -534,3 +534,134 @@ def c18_iter_tuple_processes(rec, params):
     '''iter_tuple / iter_tuple_items through a process pool: the per-call namedtuple class ("Axis") cannot be pickled, every such call raises PicklingError'''
     case = rec.get('case') or {}
     return rec.get('clause') == 'spurious_error' and str(case.get('iface', '')).startswith('Frame.iter_tuple') and case.get('pool') == 'processes'
+
+
+def _resolve_iloc(key, n):
+    k = key[0]
+    if k == 'all':
+        return list(range(n))
+    if k == 'int':
+        p = key[1] + n if key[1] < 0 else key[1]
+        return [p] if 0 <= p < n else None
+    if k == 'slice':
+        c = lambda x: None if x[0] == 'none' else x[1]
+        return list(range(n))[slice(c(key[1]), c(key[2]), c(key[3]))]
+    if k == 'list':
+        out = []
+        for p in key[1]:
+            p = p + n if p < 0 else p
+            if not 0 <= p < n:
+                return None
+            out.append(p)
+        return out
+    if k == 'mask':
+        return [i for i, b in enumerate(key[1]) if b] if len(key[1]) == n else None
+    return None
+
+
+def _resolve_loc(key, labels):
+    k = key[0]
+    n = len(labels)
+    if k == 'all':
+        return list(range(n))
+    if k == 'iloc':
+        return _resolve_iloc(key[1], n)
+    if k == 'mask':
+        return _resolve_iloc(key, n)
+    if k == 'loc':
+        return [labels.index(key[1])] if key[1] in labels else None
+    if k == 'loclist':
+        return [labels.index(x) for x in key[1]] if all(x in labels for x in key[1]) else None
+    if k == 'locslice':
+        a = 0 if key[1][0] == 'none' else (labels.index(key[1]) if key[1] in labels else None)
+        b = n - 1 if key[2][0] == 'none' else (labels.index(key[2]) if key[2] in labels else None)
+        if a is None or b is None:
+            return None
+        st = 1 if key[3][0] == 'none' else key[3][1]
+        return list(range(a, b + 1, st)) if st > 0 else None
+    return None
+
+
+def _quilt_positions(cs):
+    '''resolved 0-based positions of a Quilt call on (the Quilt axis, the opposite axis), the member of every axis position'''
+    q = cs['q']
+    along, owner = [], []
+    for m, mem in enumerate(q['members']):
+        for lab in (mem['f']['index'] if q['axis'] == 0 else mem['f']['columns']):
+            along.append(['t', [mem['label'], lab]] if q['retain'] else lab)
+            owner.append(m)
+    opp = q['members'][0]['f']['columns'] if q['axis'] == 0 else q['members'][0]['f']['index']
+    rows, cols = (along, opp) if q['axis'] == 0 else (opp, along)
+    op = cs['op']
+    if op == 'q_iloc':
+        r, c = _resolve_iloc(cs['rk'], len(rows)), _resolve_iloc(cs['ck'], len(cols))
+    elif op == 'q_loc':
+        r, c = _resolve_loc(cs['rk'], rows), _resolve_loc(cs['ck'], cols)
+    elif op == 'q_getitem':
+        r, c = list(range(len(rows))), _resolve_loc(cs['ck'], cols)
+    elif op == 'q_head':
+        r, c = list(range(len(rows)))[:cs['count']], list(range(len(cols)))
+    else:
+        return None
+    if r is None or c is None:
+        return None
+    return ((r, c) if q['axis'] == 0 else (c, r)), owner
+
+
+def _member_grouped(ps, owner):
+    if len(set(ps)) != len(ps):
+        return False
+    seen = []
+    for i, p in enumerate(ps):
+        m = owner[p]
+        if seen and seen[-1] != m and m in seen:
+            return False
+        if not seen or seen[-1] != m:
+            seen.append(m)
+        elif ps[i - 1] > p:
+            return False
+    return True
+
+
+@classifier
+def c19_quilt_key_order(rec, params):
+    '''Quilt._extract turns the key on the Quilt axis into a Boolean selection: positions come back grouped by member Frame (members in order of first
+    appearance in the key) and ascending inside each member, so descending slices, lists that interleave members or go backwards inside a member, and
+    repeated positions do not give what the concatenated Frame gives'''
+    cs = (rec.get('case') or {}).get('cs') or {}
+    if not str(cs.get('op', '')).startswith('q_'):
+        return False
+    r = _quilt_positions(cs)
+    if r is None:
+        return False
+    (ax, _), owner = r
+    return len(ax) > 0 and not _member_grouped(ax, owner)
+
+
+@classifier
+def c19_quilt_empty_selection(rec, params):
+    '''a Quilt selection that selects nothing on either axis raises (UnboundLocalError: component_is_series, or ErrorInitFrame from concatenating empty
+    parts) instead of returning the empty Frame / Series'''
+    cs = (rec.get('case') or {}).get('cs') or {}
+    act = rec.get('actual') or {}
+    if not str(cs.get('op', '')).startswith('q_') or not isinstance(act, dict) or act.get('k') != 'err':
+        return False
+    r = _quilt_positions(cs)
+    if r is None:
+        return False
+    (ax, opp), owner = r
+    return len(ax) == 0 or len(opp) == 0
+
+
+@classifier
+def c19_batch_zero_sized(rec, params):
+    '''a Batch chain in which some label's Frame becomes zero-sized (no rows or no columns): the following step raises ErrorInitFrame / ErrorInitTypeBlocks
+    on that Frame (the zero-sized Frame defects recorded under C04 / C14), so the Batch raises instead of yielding the empty result'''
+    exp, act = rec.get('expected'), rec.get('actual')
+    if not str(rec.get('clause', '')).startswith('batch') or not isinstance(exp, list) or not isinstance(act, list):
+        return False
+    if not (len(act) == 1 and act[0][0] == ['s', 'ERROR'] and act[0][1].get('cat') == 'init'):
+        return False
+    def empty(x):
+        return x.get('k') == 'frame' and (len(x['index']) == 0 or len(x['columns']) == 0)
+    return any(empty(item[1]) for item in exp)
